@@ -11,6 +11,11 @@ round-trip on the supplied channels.  `strict_fp_state`: the same filler-indepen
 clauses while numpy's floating-point error handling is strict (errstate / seterr 'raise', RuntimeWarning as
 error) and the withheld channel is a narrow GaussianART / BayesianART: no filler may make the call raise.
 
+`out_of_band_edits`: after a prediction the weights of a channel module are changed through the module's public API
+(shrink_clusters, W[j] = w, two categories exchanged, set_weight, W = [...]; the host's set_weight), several rounds: model.W
+is the concatenation of the channel weights, partial-channel predict is the arg-max over the CURRENT channel weights whatever
+the filler, predict_regression the CURRENT target-channel centre of that category.
+
 Tie: `artdrv fusion hist … # pred X SKIP` (model `predictSkip`), `fusion regr`
 (`predictRegression`), `fusion joinsplit` and `fusion restore` (`restoreRow`) on exact
 classes and grid data, for every subset of channels (suffixes or not) and every spelling.
@@ -486,6 +491,229 @@ def strict_fp_state(ctx, G):
                         cov.hit("strict-fp:regression-centre-ok" + ("(default-target)" if entry.endswith("(default)") else ""))
 
 
+# ------------------------------------------------------------------ channel weights edited between two predictions
+
+WARMUPS = ["predict", "predict(skip)", "predict_regression", "read-W", "none"]
+EDIT_KINDS = ["module.shrink_clusters", "module.W[j]=", "module.W[a],W[b]=swap", "module.set_weight", "module.W=list",
+              "fusion.set_weight"]
+
+
+def fused_ref(f):
+    """the concatenation of the channel modules' weights, category by category"""
+    return [np.concatenate([np.asarray(m.W[c], dtype=float) for m in f.modules]) for c in range(f.modules[0].n_clusters)]
+
+
+def fresh_weight(r, m, c, x_rows, W_now):
+    """a weight that is valid for module `m` (class `c`) and differs from its weights now where possible: the weight a
+    module of this class creates for a data row (its public new_weight) or the row learned into an existing weight
+    (its public update); None when neither gives a finite vector of the right length"""
+    for _ in range(4):
+        x = np.array(x_rows[r.randrange(len(x_rows))], dtype=float)
+        try:
+            with quiet():
+                w = m.new_weight(x, m.params) if r.random() < 0.6 else m.update(x, np.array(W_now[r.randrange(len(W_now))]), m.params)
+            w = np.asarray(w, dtype=float)
+        except Exception:
+            continue
+        if w.shape != np.shape(W_now[0]) or not np.all(np.isfinite(w)):
+            continue
+        try:        # the module itself must be able to evaluate it (e.g. not the all-zero FuzzyART weight with alpha = 0)
+            with quiet():
+                acts = [float(m.category_choice(np.array(x_, dtype=float), w, m.params)[0]) for x_ in x_rows]
+        except Exception:
+            continue
+        if all(a == a and abs(a) != float("inf") for a in acts):
+            return w
+    return None
+
+
+def out_of_band_edits(ctx, G):
+    """A trained FusionART is used for prediction (so that anything the estimator might remember about its weights has
+    been computed), then the weights of one of its channel modules are changed through the module's own public API,
+    behind the host's back -- `modules[k].shrink_clusters(ratio)`, `modules[k].W[j] = w`, two categories' weights of one
+    channel exchanged, `modules[k].set_weight(j, w)`, `modules[k].W = [...]` -- or through the host's `set_weight`; the
+    category count never changes and every new weight is one the module's class produces itself (new_weight / update of a
+    valid row, or another category's weight).  Then partial-channel inference again, several such rounds on one model.
+    The property speaks about the model as it is NOW: `model.W` is the concatenation of the channel weights, every valid
+    filler gives the first arg-max of the gamma-weighted activations of the supplied channels under the CURRENT channel
+    weights, and predict_regression the CURRENT target-channel centre of that category."""
+    cov = ctx.cov
+    for i in range(G):
+        r = gen.rng_for(ctx.seed, "C11-oob", i)
+        cls, ds, sp, dims, gam = gen_channels(r, 2, 4)
+        k = len(cls)
+        floats = r.random() < 0.4
+        n = limit_n(sp, r.randint(4, 14))
+        Xc = channel_data(r, cls, ds, n, floats=floats)
+        X = np.hstack(Xc)
+        spec = fusion_spec(sp, dims, gam)
+        off = np.cumsum([0] + dims)
+        rep = {"spec": spec, "classes": cls, "X": X}
+        try:
+            f = make(spec)
+            set_identity_bounds(f, cls, ds)
+            with quiet():
+                f.fit(X)
+        except Exception as e:
+            ctx.issue("violation", f"FusionART.fit:{exc_enum(e)}", f"fit raised {e!r}", rep)
+            continue
+        ncat = len(f.W)
+        nq = r.randint(3, 7)
+        Qc = [np.vstack([A[[r.randrange(n)]] if r.random() < 0.6 else B[[j]] for j in range(nq)])
+              for A, B in zip(Xc, channel_data(r, cls, ds, nq, floats=floats))]
+        Q = np.hstack(Qc)
+        warm = r.choice(WARMUPS)
+        S0 = sorted(r.sample(range(k), r.randint(1, k - 1)))
+        rep = dict(rep, query=Q, warm_up=warm, warm_up_skip=S0, edits=[])
+        cov.case(("oob", tuple(cls), str(sp), tuple(dims), tuple(gam), X.tobytes(), Q.tobytes(), warm), ncat >= 2)
+        try:
+            with quiet():
+                if warm == "predict":
+                    f.predict(Q)
+                elif warm == "predict(skip)":
+                    f.predict(Q, skip_channels=list(S0))
+                elif warm == "predict_regression":
+                    f.predict_regression(Q, target_channels=list(S0))
+                elif warm == "read-W":
+                    f.W
+        except Exception as e:
+            ctx.issue("violation", f"FusionART.predict:skip:{exc_enum(e)}", f"warm-up {warm} (skip {S0}) raised {e!r}", rep)
+            continue
+        cov.hit(f"edit-between-predictions:warm-up={warm}")
+        edits = []
+        for rnd in range(r.randint(1, 3)):
+            S = sorted(r.sample(range(k), r.randint(1, k - 1)))
+            Ssp = spell(r, S, k)
+            supplied = [j for j in range(k) if j not in S]
+            kk = r.choice(supplied) if r.random() < 0.8 else r.randrange(k)     # mostly a channel the answer depends on
+            m = f.modules[kk]
+            kind = r.choice(EDIT_KINDS)
+            if kind == "module.shrink_clusters" and cls[kk] != "FuzzyART":
+                fz = [j for j in supplied if cls[j] == "FuzzyART"] or [j for j in range(k) if cls[j] == "FuzzyART"]
+                if fz:
+                    kk = r.choice(fz)
+                    m = f.modules[kk]
+                elif r.random() < 0.7:
+                    kind = r.choice(EDIT_KINDS[1:])     # a no-op for the other classes: kept now and then
+            if kind == "module.W[a],W[b]=swap" and ncat < 2:
+                kind = "module.W[j]="
+            W_before = [np.array(w, dtype=float) for w in m.W]
+            ed = {"round": rnd, "kind": kind, "channel": kk}
+            try:
+                with quiet():
+                    if kind == "module.shrink_clusters":
+                        ed["ratio"] = r.choice([0.1, 0.25, 0.45, 0.5])
+                        m.shrink_clusters(ed["ratio"])
+                    elif kind == "module.W[a],W[b]=swap":
+                        a, b = r.sample(range(ncat), 2)
+                        ed["a"], ed["b"] = a, b
+                        m.W[a], m.W[b] = m.W[b], m.W[a]
+                    elif kind == "module.W=list":
+                        perm = list(range(ncat))
+                        r.shuffle(perm)
+                        new = [np.array(W_before[p]) for p in perm]
+                        w = fresh_weight(r, m, cls[kk], list(Xc[kk]) + list(Qc[kk]), W_before)
+                        if w is not None:
+                            new[r.randrange(ncat)] = w
+                        ed["W"] = [v.tolist() for v in new]
+                        m.W = new
+                    elif kind == "fusion.set_weight":
+                        j = r.randrange(ncat)
+                        parts = []
+                        for t, mt in enumerate(f.modules):
+                            wt = fresh_weight(r, mt, cls[t], list(Xc[t]) + list(Qc[t]), [np.array(v, dtype=float) for v in mt.W]) \
+                                if (t == kk or r.random() < 0.3) else None
+                            parts.append(np.array(mt.W[j], dtype=float) if wt is None else wt)
+                        ed["j"], ed["w"] = j, np.concatenate(parts).tolist()
+                        f.set_weight(j, np.concatenate(parts))
+                    else:
+                        j = r.randrange(ncat)
+                        w = fresh_weight(r, m, cls[kk], list(Xc[kk]) + list(Qc[kk]), W_before)
+                        if w is None or (ncat >= 2 and r.random() < 0.3):
+                            w = np.array(W_before[r.choice([c for c in range(ncat) if c != j] or [j])])
+                        ed["j"], ed["w"] = j, w.tolist()
+                        if kind == "module.W[j]=":
+                            m.W[j] = w
+                        else:
+                            m.set_weight(j, w)
+            except Exception as e:      # the library may refuse an edit; the clauses below then speak about the weights as they are
+                ed["raised"] = repr(e)
+                cov.hit(f"edit-between-predictions:{kind}:refused({exc_enum(e)})")
+            edits.append(ed)
+            rp = dict(rep, edits=list(edits), skip=Ssp, own_channels=S)
+            changed = len(m.W) != len(W_before) or any(not np.array_equal(np.asarray(a, dtype=float), b) for a, b in zip(m.W, W_before))
+            if any(len(mt.W) != ncat for mt in f.modules):
+                cov.hit("edit-between-predictions:category-counts-differ(case-left-out)")
+                break
+            cov.hit(f"edit-between-predictions:{kind}:" + ("weights-changed" if changed else "no-change"))
+            cov.hit("edit-between-predictions:edited-channel-" + ("supplied" if kk not in S else "withheld"))
+            # ---- model.W is the concatenation of the channel weights
+            try:
+                with quiet():
+                    Wf = [np.asarray(w, dtype=float) for w in f.W]
+                Wr = fused_ref(f)
+                if len(Wf) != len(Wr) or any(not np.array_equal(a, b) for a, b in zip(Wf, Wr)):
+                    c_ = next((c for c in range(min(len(Wf), len(Wr))) if not np.array_equal(Wf[c], Wr[c])), None)
+                    ctx.issue("violation", "FusionART.W:after-channel-weight-edit:!=concatenation-of-channel-weights",
+                              f"after {kind} on channel {kk} (warm-up {warm}): model.W has {len(Wf)} rows, the channel modules "
+                              f"{len(Wr)}; first differing category {c_}: model.W {None if c_ is None else Wf[c_].tolist()}, "
+                              f"concatenated channel weights {None if c_ is None else Wr[c_].tolist()}", rp)
+                else:
+                    cov.hit("edit-between-predictions:W=concatenation-ok")
+            except Exception as e:
+                ctx.issue("violation", f"FusionART.W:after-channel-weight-edit:{exc_enum(e)}",
+                          f"after {kind} on channel {kk}: reading model.W raised {e!r}", rp)
+            # ---- partial-channel predict = arg-max over the CURRENT channel weights, whatever the filler
+            try:
+                ref = ref_argmax(f, Q, S, off)
+            except Exception as e:     # a channel module cannot evaluate its own weights: nothing to compare with
+                cov.hit(f"edit-between-predictions:module-activation-raises({exc_enum(e)})(case-left-out)")
+                break
+            preds = []
+            try:
+                for t in range(2):
+                    Qf = Q.copy()
+                    for j in S:
+                        Qf[:, off[j]:off[j + 1]] = ((1.0 if cls[j] == "ART1" else 0.5) if t == 0
+                                                    else valid_filler(r, cls[j], ds[j], nq, True))
+                    with quiet():
+                        preds.append([int(v) for v in f.predict(Qf, skip_channels=list(Ssp))])
+            except Exception as e:
+                ctx.issue("violation", f"FusionART.predict:after-channel-weight-edit:{exc_enum(e)}",
+                          f"after {kind} on channel {kk}: predict with skip {Ssp} raised {e!r}", rp)
+                break
+            if preds[0] != preds[1]:
+                ctx.issue("violation", "FusionART.predict:after-channel-weight-edit:depends-on-skipped-columns",
+                          f"after {kind} on channel {kk}, skip {Ssp}: labels {preds} for two valid fillers", rp)
+            elif any(b is not None and a != b for a, b in zip(preds[0], ref)):
+                ctx.issue("violation", "FusionART.predict:after-channel-weight-edit:not-argmax-over-current-weights",
+                          f"after {kind} on channel {kk} (warm-up {warm}), skip {Ssp}: labels {preds[0]}, arg-max of the "
+                          f"supplied channels under the channel modules' current weights {ref}", rp)
+            else:
+                cov.hit("edit-between-predictions:predict-argmax-over-current-weights-ok")
+            # ---- predict_regression = the CURRENT target-channel centre of that category
+            tn = [t + k if t < 0 else t for t in Ssp]
+            try:
+                with quiet():
+                    out = f.predict_regression(Q, target_channels=list(Ssp))
+                    centres = [mt.get_cluster_centers() for mt in f.modules]
+            except Exception as e:
+                ctx.issue("violation", f"FusionART.predict_regression:after-channel-weight-edit:{exc_enum(e)}",
+                          f"after {kind} on channel {kk}: predict_regression with targets {Ssp} raised {e!r}", rp)
+                break
+            rows = [q for q in range(nq) if ref[q] is not None]
+            outs_ = [out] if len(tn) == 1 and not isinstance(out, list) else out
+            okr = isinstance(outs_, list) and len(outs_) == len(tn) and (len(tn) == 1 or isinstance(out, list)) and all(
+                np.shape(u)[0] == nq and all(np.array_equal(np.asarray(u[q]), centres[j][ref[q]], equal_nan=True) for q in rows)
+                for u, j in zip(outs_, tn))
+            if not okr:
+                ctx.issue("violation", "FusionART.predict_regression:after-channel-weight-edit:!=current-target-centre",
+                          f"after {kind} on channel {kk} (warm-up {warm}), targets {Ssp}: values differ from the target "
+                          f"channels' current centres of the arg-max categories {ref}", rp)
+            else:
+                cov.hit("edit-between-predictions:regression-current-centre-ok")
+
+
 def run(ctx):
     cov = ctx.cov
     ctx.assumptions += [
@@ -495,6 +723,9 @@ def run(ctx):
         "column bounds of the modules are the identity for the centre / regression clauses",
         "strict floating-point error state (np.errstate / np.seterr 'raise', RuntimeWarning as error): training runs under "
         "numpy's default state; a case whose SUPPLIED channels signal a floating-point event under the strict state is left out",
+        "channel weights edited between predictions: the category count is unchanged and every new weight is one the module's "
+        "class produces itself (new_weight / update of a valid row, another category's weight, shrink_clusters) and can "
+        "evaluate (finite category_choice); an edit the library refuses leaves the clauses to the weights as they are",
     ]
     N = ctx.scale(300, 3000)
     nmax = ctx.scale(12, 40)
@@ -716,6 +947,7 @@ def run(ctx):
             cov.sample({"classes": cls, "dims": dims, "gamma": gam, "ncat": ncat, "query_rows": nq})
     shared_selectors(ctx, ctx.scale(60, 600))
     strict_fp_state(ctx, ctx.scale(60, 600))
+    out_of_band_edits(ctx, ctx.scale(300, 3000))
     outs = run_driver(lines)
     for line, out, (kind, i, exp, rp) in zip(lines, outs, metas):
         rp = dict(rp, line=line, model=out)
